@@ -262,7 +262,11 @@ def run(ctx):
             mspec = strip_private(spec)
             model = drv.send({"op": "xml", "gen": mspec}) if drv else None
             # (a) independent reader vs the model's writer
-            iset = infoset(fp)
+            try:
+                iset = infoset(fp)
+            except Exception as e:
+                fails.append({"what": f"the written manifest is not well-formed XML ({e}); records {[(r['path'], r.get('prev')) for r in mspec['records']][:4]}", "replay": {"spec": mspec}})
+                continue
             if model and iset != model["tree"]:
                 corr.append({"what": "the file read by an independent XML reader differs from the model's element tree: " + first_diff(iset, model["tree"]), "replay": {"spec": mspec}})
             # (b) the tool's own reader
@@ -285,7 +289,11 @@ def run(ctx):
             if exp and problems and not direct:
                 corr.append({"what": "tool's reader vs model's norm: " + problems[0], "replay": {"spec": mspec}})
             # (c) independent reader extracts the same values as the tool's reader
-            m = rt.read_manifest(fp)
+            try:
+                m = rt.read_manifest(fp)
+            except Exception as e:
+                fails.append({"what": f"the written manifest is not well-formed for an independent XML reader: {e}", "replay": {"spec": mspec}})
+                continue
             ip = [r["path"] for r in m["records"]]
             if ip != [r["path"] for r in back["records"]]:
                 fails.append({"what": f"independent reader sees record paths {ip!r}, the tool's reader {[r['path'] for r in back['records']]!r}", "replay": {"spec": mspec}})
@@ -340,6 +348,25 @@ def run(ctx):
                     corr.append({"what": f"model chain round trip differs: {mo['parsed']}", "replay": {"chain": exp}})
     if drv:
         drv.close()
+    # the same under a process locale that is not UTF-8: the files declare UTF-8 and are UTF-8
+    try:
+        import subprocess
+        with rt.tempdir("c10l_") as d:
+            root = os.path.join(d, "root")
+            rt.mk(root, {"a.txt": "a", "s/b.txt": "u"})  # (ASCII names: under such a locale Python itself cannot represent other names as text)
+            env = dict(os.environ, LC_ALL="C", LANG="C", PYTHONUTF8="0", PYTHONCOERCECLOCALE="0")
+            env.pop("PYTHONIOENCODING", None)
+            pr = subprocess.run(["/venv/bin/python", os.path.join(rt.VERIF, "harness", "locale_case.py"), rt.REPO, root], capture_output=True, text=True, timeout=120, env=env)
+            evals += 1
+            line = [l for l in pr.stdout.split("\n") if l.startswith("{")]
+            if not line:
+                fails.append({"what": f"create under LC_ALL=C (UTF-8 mode off) with non-ASCII creator fields: no result, stderr {pr.stderr[-200:]!r}", "replay": {"case": "locale C"}})
+            else:
+                o = json.loads(line[-1])
+                if o["exit"] != 0 or o["exc"] or not o.get("utf8") or not o.get("has_comment"):
+                    fails.append({"what": f"create under LC_ALL=C (UTF-8 mode off, locale encoding {o.get('locale')}) with non-ASCII creator fields: {o}", "replay": {"case": "locale C"}})
+    except Exception as e:
+        ctx.notes.append(f"locale case not run: {e!r}")
     for w in ("D3", "D9", "D15"):
         for msg in witnesses.ALL[w]():
             fails.append({"what": f"regression of fixed defect {w}: {msg}", "replay": {"witness": w}})
